@@ -41,7 +41,7 @@ impl Default for Cfg {
     }
 }
 
-pub const NAMES: [&str; 10] = ["r", "ra", "rab", "rb", "x.y", "dep-1", "D", "r_2", "a", "z9"];
+pub const NAMES: [&str; 14] = ["r", "ra", "rab", "rb", "x.y", "dep-1", "D", "r_2", "a", "z9", "R", "Ra", "d", "A"];
 pub const OPNAMES: [&str; 5] = ["$a", "$ab", "$b", "$c", "$a_1"];
 pub const FIELDS: [&str; 4] = ["f0", "f1", "f2", "f3"];
 
